@@ -28,35 +28,43 @@ PermMatch(kind, m, bits) ==
 (***************************************************************************)
 (* Symbolic modes, structured: a mode is a sequence of clauses             *)
 (*   [who |-> subset of {"u","g","o"}, acts |-> sequence of                *)
-(*      [op |-> "+" | "-" | "=", perms |-> subset of {"r","w","x","s","t"},*)
+(*      [op |-> "+" | "-" | "=", perms |-> subset of {"r","w","x","X","s","t"}*)
 (*       copy |-> "" | "u" | "g" | "o"]]                                   *)
 (* evaluated like chmod starting from 0 (explicit who only).               *)
 (***************************************************************************)
 ClassShift(w) == IF w = "u" THEN 6 ELSE IF w = "g" THEN 3 ELSE 0
 ClassBits(w) == {ClassShift(w), ClassShift(w) + 1, ClassShift(w) + 2}
 Special(w) == IF w = "u" THEN 11 ELSE IF w = "g" THEN 10 ELSE 9
-PermBitsFor(w, perms) ==
+\* "X": execute/search only if the file is a directory or the mode computed so far has execute permission for someone
+PermBitsFor(w, perms, xok) ==
   (IF "r" \in perms THEN {ClassShift(w) + 2} ELSE {}) \cup (IF "w" \in perms THEN {ClassShift(w) + 1} ELSE {})
   \cup (IF "x" \in perms THEN {ClassShift(w)} ELSE {})
+  \cup (IF "X" \in perms /\ xok THEN {ClassShift(w)} ELSE {})
   \cup (IF "s" \in perms /\ w \in {"u", "g"} THEN {Special(w)} ELSE {})
   \cup (IF "t" \in perms /\ w = "o" THEN {9} ELSE {})
 CopyBitsFor(w, from, cur) == {ClassShift(w) + k : k \in {j \in 0..2 : (ClassShift(from) + j) \in cur}}
-ActBits(who, act, cur) ==
-  UNION {IF act.copy = "" THEN PermBitsFor(w, act.perms) ELSE CopyBitsFor(w, act.copy, cur) : w \in who}
+ActBits(who, act, cur, isdir) ==
+  UNION {IF act.copy = "" THEN PermBitsFor(w, act.perms, isdir \/ cur \cap {0, 3, 6} # {}) ELSE CopyBitsFor(w, act.copy, cur) : w \in who}
 Affected(who) == UNION {ClassBits(w) \cup {Special(w)} : w \in who}
-ApplyAct(who, act, cur) ==
-  IF act.op = "+" THEN cur \cup ActBits(who, act, cur)
-  ELSE IF act.op = "-" THEN cur \ ActBits(who, act, cur)
-  ELSE (cur \ Affected(who)) \cup ActBits(who, act, cur)
-RECURSIVE ApplyActs(_, _, _), ApplyClauses(_, _)
-ApplyActs(who, acts, cur) == IF acts = <<>> THEN cur ELSE ApplyActs(who, Tail(acts), ApplyAct(who, Head(acts), cur))
-ApplyClauses(cl, cur) == IF cl = <<>> THEN cur ELSE ApplyClauses(Tail(cl), ApplyActs(Head(cl).who, Head(cl).acts, cur))
-SymbolicValue(clauses) == FromBits(ApplyClauses(clauses, {}))
+\* "=" clears what it does not set - except that a directory keeps its set-user-ID and set-group-ID bits unless the
+\* operation itself mentions them (chmod's rule for directories; the operand is computed as chmod would compute a mode)
+KeptSpecial(act, bits, isdir) == IF isdir THEN {10, 11} \ (IF act.copy = "" THEN bits ELSE {}) ELSE {}
+ApplyAct(who, act, cur, isdir) ==
+  LET bits == ActBits(who, act, cur, isdir) IN
+  IF act.op = "+" THEN cur \cup bits
+  ELSE IF act.op = "-" THEN cur \ bits
+  ELSE (cur \ (Affected(who) \ KeptSpecial(act, bits, isdir))) \cup bits
+RECURSIVE ApplyActs(_, _, _, _), ApplyClauses(_, _, _)
+ApplyActs(who, acts, cur, isdir) == IF acts = <<>> THEN cur ELSE ApplyActs(who, Tail(acts), ApplyAct(who, Head(acts), cur, isdir), isdir)
+ApplyClauses(cl, cur, isdir) == IF cl = <<>> THEN cur ELSE ApplyClauses(Tail(cl), ApplyActs(Head(cl).who, Head(cl).acts, cur, isdir), isdir)
+\* the operand a file is compared with; a directory is compared with the value computed for a directory
+SymbolicValueFor(clauses, isdir) == FromBits(ApplyClauses(clauses, {}, isdir))
+SymbolicValue(clauses) == SymbolicValueFor(clauses, FALSE)
 
 \* the text of a structured mode
 WhoText(who) == (IF "u" \in who THEN <<117>> ELSE <<>>) \o (IF "g" \in who THEN <<103>> ELSE <<>>) \o (IF "o" \in who THEN <<111>> ELSE <<>>)
 PermsText(p) == (IF "r" \in p THEN <<114>> ELSE <<>>) \o (IF "w" \in p THEN <<119>> ELSE <<>>) \o (IF "x" \in p THEN <<120>> ELSE <<>>)
-                \o (IF "s" \in p THEN <<115>> ELSE <<>>) \o (IF "t" \in p THEN <<116>> ELSE <<>>)
+                \o (IF "X" \in p THEN <<88>> ELSE <<>>) \o (IF "s" \in p THEN <<115>> ELSE <<>>) \o (IF "t" \in p THEN <<116>> ELSE <<>>)
 OpChar(op) == IF op = "+" THEN 43 ELSE IF op = "-" THEN 45 ELSE 61
 ActText(a) == <<OpChar(a.op)>> \o (IF a.copy = "" THEN PermsText(a.perms) ELSE <<IF a.copy = "u" THEN 117 ELSE IF a.copy = "g" THEN 103 ELSE 111>>)
 ClauseText(c) == WhoText(c.who) \o Flatten([k \in DOMAIN c.acts |-> ActText(c.acts[k])])
